@@ -109,8 +109,8 @@ impl Prop for C14 {
     }
     fn cases(&self, tier: Tier) -> u64 {
         match tier {
-            Tier::Quick => 1 << 18,
-            Tier::Thorough => 1 << 23,
+            Tier::Quick => 1 << 19,
+            Tier::Thorough => 1 << 24,
         }
     }
     fn strategy(&self, _tier: Tier) -> BoxedStrategy<Case> {
